@@ -1,15 +1,21 @@
 #!/usr/bin/env bash
 # MANIFEST.setup_cmd: offline bootstrap of the two contract libraries beside the repository's
 # own interpreter (pure-Python wheels from the local wheelhouse; .deps is git-ignored).
+# Safe to run concurrently (several checks started at once on a fresh checkout): serialised with a
+# lock, installed into a private temp dir and moved into place atomically.
 set -eu
 HERE="$(cd "$(dirname "${BASH_SOURCE[0]}")" && pwd)"
 PY="${VERIF_PYTHON:-/venv/bin/python}"
-if [ ! -d "$HERE/.deps/icontract" ] || [ ! -d "$HERE/.deps/deal" ]; then
-    rm -rf "$HERE/.deps.tmp"
-    PIP_NO_INDEX=1 "$PY" -m pip install --quiet --no-index --find-links /opt/veriftools/wheels \
-        --target "$HERE/.deps.tmp" icontract deal
-    rm -rf "$HERE/.deps"
-    mv "$HERE/.deps.tmp" "$HERE/.deps"
-fi
 mkdir -p "$HERE/evidence" "$HERE/replays"
+(
+    flock 9
+    if [ ! -d "$HERE/.deps/icontract" ] || [ ! -d "$HERE/.deps/deal" ]; then
+        tmp="$HERE/.deps.tmp.$$"
+        rm -rf "$tmp"
+        PIP_NO_INDEX=1 "$PY" -m pip install --quiet --no-index --find-links /opt/veriftools/wheels \
+            --target "$tmp" icontract deal
+        rm -rf "$HERE/.deps"
+        mv "$tmp" "$HERE/.deps"
+    fi
+) 9>"$HERE/.deps.lock"
 echo "setup ok"
